@@ -1054,7 +1054,7 @@ class Engine:
             q = self.prog.method(cls, attr)
             if q is not None and q in self.prog.properties:
                 return self.call_function(q, [base], {}, st, fr, node)
-            if q is not None:
+            if q is not None or f"ext:{cls}.{attr}" in self.spec.fns:
                 return V(BOUND, None, (base, attr))
             return self.read_field(st, base, attr, fr)
         if k in ("list", "dict", "set", "str", "seqv", "iter", "tuple"):
@@ -1255,7 +1255,10 @@ class Engine:
             return QForAll([var], full)
         if kind == "seq":
             # the negated form (a universal) is instantiated on the members of the sequence
-            return z3.Exists([var], z3.And(guard, body), patterns=[dom])
+            try:
+                return z3.Exists([var], z3.And(guard, body), patterns=[dom])
+            except z3.Z3Exception:
+                pass   # the membership term contains a connective (merged heap version): leave pattern choice to z3
         return z3.Exists([var], z3.And(guard, body))
 
     def ev_GeneratorExp(self, node, st, fr):
